@@ -2,51 +2,56 @@
 routing in the templates, one predicate everywhere, set semantics of tag sets."""
 import ast
 
-from ..astq import conds, facts_of, is_name, is_self_attr, parse_fixture, returns_of
+from ..astq import conds, decision_list, facts_of, is_name, is_self_attr, literals, parse_fixture, returns_of, split_tests
 from ..core import AnalysisError, norm, walk_local
 from ..xform import query as Q
 from ..xform.terms import (Copy, GenericVisit, Ident, In, InList, Lib, Node, Raise, Rec, Star, SymStr, Visit, children, walk)
 
 
 def decision_table(fn):
-    """Read a function made of `if c: return e` / elif / else / return e into [(path condition, returned expr)]."""
-    rows = []
-
-    def walk_block(stmts, conds):
-        for i, st in enumerate(stmts):
-            if isinstance(st, ast.Return):
-                rows.append((list(conds), norm(st.value)))
-                return True
-            if isinstance(st, ast.If):
-                t = norm(st.test)
-                a = walk_block(st.body, conds + [t])
-                b = walk_block(st.orelse, conds + [f"not ({t})"]) if st.orelse else False
-                if a and b:
-                    return True
-                if a and not st.orelse:
-                    conds = conds + [f"not ({t})"]
-                    continue
-                if not a:
-                    raise AnalysisError(f"{fn.name}: branch without return (shape not recognised)")
-                continue
-            if isinstance(st, ast.Expr) and isinstance(st.value, ast.Constant):
-                continue
-            raise AnalysisError(f"{fn.name}: statement `{norm(st)[:50]}` not recognised in a decision function")
-        return False
-    walk_block(fn.body, [])
+    """A function made of if / elif / else / guard clauses / conditional expressions over returns, as an ordered
+    first-match table [(sorted literal texts, returned expression text)] in a canonical form: conditions that merely
+    repeat "no earlier row applied" are dropped, and a boolean tail `if c: return False` + `return True` is the row
+    `return not c` (so nesting, guard clauses and `return <test>` all read the same)."""
+    entries, impure = decision_list(fn)
+    if impure:
+        raise AnalysisError(f"{fn.name}: statement `{norm(impure[0])[:50]}` not recognised in a decision function")
+    rows, implied = [], set()
+    for tests, v in entries:
+        lits = [x for x in split_tests(tests) if x not in implied]
+        rows.append((sorted(set(lits)), norm(v)))
+        if lits:       # from here on this row did not apply: (given what is already implied) the negation of its own conditions holds
+            parsed = [ast.parse(x, mode="eval").body for x in sorted(set(lits))]
+            implied |= set(literals(parsed[0] if len(parsed) == 1 else ast.BoolOp(op=ast.And(), values=parsed), False))
+    # polarity of the last test: `if not c: A` + `B` is `if c: B` + `A`
+    def negative(lit):
+        e = ast.parse(lit, mode="eval").body
+        return (isinstance(e, ast.UnaryOp) and isinstance(e.op, ast.Not)) or (isinstance(e, ast.Compare) and len(e.ops) == 1 and isinstance(e.ops[0], (ast.IsNot, ast.NotEq, ast.NotIn)))
+    if len(rows) >= 2 and rows[-1][0] == [] and len(rows[-2][0]) == 1 and negative(rows[-2][0][0]):
+        pos = literals(ast.parse(rows[-2][0][0], mode="eval").body, False)
+        if len(pos) == 1:
+            rows[-2:] = [(pos, rows[-1][1]), ([], rows[-2][1])]
+    # boolean tail
+    while len(rows) >= 2 and rows[-1][0] == [] and len(rows[-2][0]) == 1 and {rows[-1][1], rows[-2][1]} == {"True", "False"}:
+        lit = rows[-2][0][0]
+        if rows[-2][1] == "False":
+            lit = literals(ast.parse(lit, mode="eval").body, False)
+            if len(lit) != 1:
+                break
+            lit = lit[0]
+        rows[-2:] = [([], lit)]
     return rows
 
 
 EXPECT_MATCH_TAG = [
     (["to_match is None"], "True"),
-    (["not (to_match is None)", "tg is None"], "False"),
-    (["not (to_match is None)", "not (tg is None)", "isinstance(tg, TagSet)"], "any((cat == to_match for cat in tg.members))"),
-    (["not (to_match is None)", "not (tg is None)", "not (isinstance(tg, TagSet))"], "tg == to_match"),
+    (["tg is None"], "False"),
+    (["isinstance(tg, TagSet)"], "any((cat == to_match for cat in tg.members))"),
+    ([], "tg == to_match"),
 ]
 EXPECT_CHECK_ELEMENT = [
-    (["el.name is not None and el.name != name"], "False"),
-    (["not (el.name is not None and el.name != name)", "not match_tag(el.category, category)"], "False"),
-    (["not (el.name is not None and el.name != name)", "not (not match_tag(el.category, category))"], "True"),
+    (["el.name != name", "el.name is not None"], "False"),
+    ([], "match_tag(el.category, category)"),
 ]
 
 
@@ -75,7 +80,7 @@ def run(repo, chk):
     rows = decision_table(mt.node)
     for i, exp in enumerate(EXPECT_MATCH_TAG):
         got = rows[i] if i < len(rows) else None
-        chk.ob("R11.1", f"tags.match_tag:row{i + 1}:{exp[0][-1]}", got == exp, mt.where,
+        chk.ob("R11.1", f"tags.match_tag:row{i + 1}:{(exp[0] or ['otherwise'])[-1]}", got == exp, mt.where,
                f"when {' and '.join(exp[0])}: returns {exp[1]}" + ("" if got == exp else f" -- found {got}"))
     chk.ob("R11.1", "tags.match_tag:no-extra-rows", len(rows) == len(EXPECT_MATCH_TAG), mt.where, f"{len(rows)} decision rows")
     ce = repo.func("selector.check_element")
@@ -198,8 +203,10 @@ def run(repo, chk):
     pa, pb = (x.arg for x in mg.node.args.args[:2])
     accs = [t.split(" = ")[0] for t, c, n in fm.items if isinstance(n, ast.Assign) and t.endswith(" = set()")]
     M = accs[0] if len(accs) == 1 else "<the member set>"
-    ok = all(fm.has(f"{M}.update({x}.members if isinstance({x}, TagSet) else {{{x}}})", exactly=[]) for x in (pa, pb)) and fm.has(f"return TagSet({M})", exactly=[]) \
-        and len([1 for t, _, n in fm.items if isinstance(n, ast.Call) and t.startswith(f"{M}.")]) == 2
+    ok = all(fm.has(f"{M}.update({x}.members)", exactly=[f"isinstance({x}, TagSet)"]) and fm.has(f"{M}.update({{{x}}})", exactly=[f"not isinstance({x}, TagSet)"]) for x in (pa, pb)) \
+        and fm.has(f"return TagSet({M})", exactly=[]) \
+        and all(t in {f"{M}.update({x}.members)" for x in (pa, pb)} | {f"{M}.update({{{x}}})" for x in (pa, pb)} | {f"{M}.update({x}.members if isinstance({x}, TagSet) else {{{x}}})" for x in (pa, pb)}
+                for t, _, n in fm.items if t.startswith(f"{M}.") and not isinstance(n, ast.Assign))
     chk.ob("R11.4", "tags._merge:union", ok, mg.where, "a & b is the union of both sides' members")
     eq = repo.func("tags.TagSet.__eq__")
     chk.ob("R11.4", "tags.TagSet.__eq__:by-members", norm(returns_of(eq.node)[0].value) == "isinstance(other, TagSet) and other.members == self.members", eq.where, "tag sets are equal iff their members are")
